@@ -271,7 +271,7 @@ def analyse(an, stream, ins, go, lean, must_hold, complete_lean=True):
                    "post_mortem": tag == "P "}
             excused = (not must_hold) and (
                 ("hw=excused" in m and clause == "holds_iff_not_invalid") or
-                (tag == "P " and clause == "counters_nonneg" and _rdmod_shape(l)))
+                (tag == "P " and clause == "counters_nonneg" and "cause=flush-rdHitM" in m))
             if excused:
                 an.excused += 1
                 if len(an.findings) < 50:
@@ -284,18 +284,6 @@ def analyse(an, stream, ins, go, lean, must_hold, complete_lean=True):
                 an.hard.append(rec)
         elif len(an.samples) < 3 and tag == "S " and "st=" in l and ":2" in l.split(" ; ")[1] and rep > 1:
             an.samples.append({"in": l[:260] + ("…" if len(l) > 260 else ""), "go": g, "lean": m})
-
-
-def _rdmod_shape(line):
-    """post-mortem snapshot of the read-of-Modified flush: a semaphore with read = -1 and write = 1 on a
-    line that the same core holds Modified (the trigger of C06-defect-2)"""
-    secs = dict(s.split("=", 1) for s in line.split(" ; ")[1:] if "=" in s)
-    neg = [x.split(":") for x in secs.get("sem", "").split(",") if x]
-    neg = [x for x in neg if int(x[1]) < 0 or int(x[2]) < 0]
-    if not neg:
-        return False
-    mod = {x.split(":")[1] for x in secs.get("st", "").split(",") if x and x.split(":")[2] == "2"}
-    return all(int(x[1]) == -1 and int(x[2]) == 1 and x[0] in mod for x in neg)
 
 
 # ------------------------------------------------------------------------------------------------
@@ -388,8 +376,10 @@ def shrink(ck, drv, case, clause, budget_s=25.0):
     return cur
 
 
-def report(ck, drv, rec):
-    """a violating snapshot of the real code -> shrunk replay file"""
+def report(ck, drv, rec, unless_excused=False):
+    """a violating snapshot of the real code -> shrunk replay file.  unless_excused: the snapshot could
+    not be classified (its run's replay was lost); if the shrunk case is classifiable and excused by a
+    flush finding, it is recorded as that finding instead."""
     case = dict(rec["case"] or {})
     if not case:
         ck.violation({"kind": "failing-input", "clause": rec["clause"], "snapshot": rec["line"], "go": rec["go"], "model": rec["lean"],
@@ -409,6 +399,10 @@ def report(ck, drv, rec):
             first = case_violates(res, clause) or hit
     except Exception as e:  # the replay machinery must not hide the violation
         ck.notes.append(f"shrinking failed: {e}")
+    if unless_excused and ("hw=excused" in first[2] or "cause=flush-rdHitM" in first[2]):
+        ck.notes.append(f"an unclassifiable violating snapshot ({rec['clause']}, stream {rec['stream']}, variant {case['variant']}) shrinks to a case excused by a flush finding: "
+                        + json.dumps(small.get("ops") or small.get("text"))[:300])
+        return False
     head = first[0].split(" ; ", 1)[0].split()
     payload = {"kind": "failing-input", "what": "a per-cycle snapshot of the real machine violates a clause of the MSI invariant",
                "clause": rec["clause"], "variant": case["variant"], "cores": case["cores"], "machine": case["kind"],
@@ -597,11 +591,14 @@ def run(ck):
             if an.ref_fail or an.hard:
                 ck.notes.append(msg)
             else:
-                report(ck, drv, u0)
+                ck.notes.append(msg)
+                for u in an.unclassified[:3]:
+                    if report(ck, drv, u, unless_excused=True) is not False:
+                        break
         if an.findings:
             f0 = an.findings[0]
             ck.notes.append(f"flush streams: {an.excused} violating snapshots excused by the flush findings (the replay shows the (core, line) was flushed between push and post(), "
-                            f"or the post-mortem shows read=-1/write=1 on a Modified line); first: stream {f0['stream']} variant={f0['run']['variant']} cores={f0['run']['cores']} cycle={f0['cycle']} {f0['go']}")
+                            f"or the replayed model shows the negative counter is the RUnlock of a flushed read-of-Modified request); first: stream {f0['stream']} variant={f0['run']['variant']} cores={f0['run']['cores']} cycle={f0['cycle']} {f0['go']}")
         if an.snapshots == 0:
             ck.broken.append("no snapshot was evaluated")
     elif okh:
